@@ -76,6 +76,16 @@ def pick_sig(chk, cls, suffix=""):
     return "C15:" + parts[0] + suffix
 
 
+def style_sig(chk, sc, suffix=""):
+    """sc is CMap!StyleClass; a separator that mixes line ends / comments with FF / NUL has two classes ("a+b") and is
+    attributed to the first of them that is a listed finding"""
+    parts = sc.split("+")
+    for p in parts:
+        if "C15:" + p + suffix in chk.known:
+            return "C15:" + p + suffix
+    return "C15:" + parts[0] + suffix
+
+
 def got_value(g):
     return [-1] if g["p"] == 1 else ([-2] if g["p"] != 0 else g["chars"])
 
@@ -88,7 +98,8 @@ def judge_replay(chk, cases, results, cover):
         chk.case(hashlib.sha1((c["f"] + c["t"]).encode()).hexdigest())
         defs = [show_def(d) for d in c["d"]]
         sc = c["sc"]
-        cover["style:" + sc] = cover.get("style:" + sc, 0) + 1
+        for part in sc.split("+"):
+            cover["style:" + part] = cover.get("style:" + part, 0) + 1
         if sc != "canon":
             # a case that departs from the tolerated spelling / font dictionary in one respect (CMap!sty): whatever
             # goes wrong is put down to that respect (the same definitions are replayed in the tolerated spelling too);
@@ -100,7 +111,7 @@ def judge_replay(chk, cases, results, cover):
                 if not c["ma"]:
                     chk.extra["model_drift"] = chk.extra.get("model_drift", 0) + 1
             else:
-                chk.violation("C15:" + sc + ("" if not c["ma"] else ".unmodelled"),
+                chk.violation(style_sig(chk, sc, "" if not c["ma"] else ".unmodelled"),
                               {"defs": defs, "style": c["s"], "font_encoding": c["f"], "program": c["t"],
                                "lopdf": r["err"] or {"encoding": r.get("encv"), "per_code": [got_value(g) for g in r["per"]]},
                                "expected_chars": c["e"], "model_accepts": c["ma"]})
@@ -138,11 +149,16 @@ def judge_replay(chk, cases, results, cover):
 
 
 def mc_emit(chk, cfg, tier, w, cover):
-    r = tlc("MC_CMap.tla", cfg, workers=4 if tier == "quick" else 12, coverage=True, timeout=3000,
+    # no -coverage here: TLC's cost model inlines the Producer's call graph (minutes for a handful of states);
+    # the actions taken are read off the emitted definitions below, and MC_CMap_cov.cfg is the coverage run
+    r = tlc("MC_CMap.tla", cfg, workers=4 if tier == "quick" else 12, coverage=False, timeout=3000,
             xmx="4g" if tier == "quick" else "8g")
-    vlib.require_coverage(r, MC_ACTIONS)
     chk.add_tlc(r)
     cases = r.tagged("REPLAY")
+    for c in cases:
+        d = c["d"][-1]
+        a = "AddChar" if d["kind"] == "char" else ("AddRangeStr" if d["t"]["k"] == "str" else "AddRangeArr")
+        cover["action:" + a] = cover.get("action:" + a, 0) + 1
     if not cases:
         raise vlib.ToolError("generator produced no cases")
     tag = os.path.splitext(cfg)[0]
@@ -161,7 +177,8 @@ def mc_emit(chk, cfg, tier, w, cover):
         if not c["ma"]:
             chk.extra.setdefault("model_rejections_by_style_class", {})
             d = chk.extra["model_rejections_by_style_class"]
-            d[c["sc"]] = d.get(c["sc"], 0) + 1
+            for part in c["sc"].split("+"):
+                d[part] = d.get(part, 0) + 1
     chk.extra.setdefault("model_counterexamples_by_class", {})
     for k, v in dev.items():
         chk.extra["model_counterexamples_by_class"][k] = chk.extra["model_counterexamples_by_class"].get(k, 0) + v
@@ -174,7 +191,7 @@ def mc_emit(chk, cfg, tier, w, cover):
 
 
 def mc_plain(cfg, tier):
-    return tlc("MC_CMap.tla", cfg, workers=4 if tier == "quick" else 12, coverage=True, timeout=3000,
+    return tlc("MC_CMap.tla", cfg, workers=4 if tier == "quick" else 12, coverage=False, timeout=3000,
                xmx="4g" if tier == "quick" else "8g")
 
 
@@ -203,7 +220,8 @@ def run(tier):
     for cfg in asis:
         mc_emit(chk, cfg, tier, w, cover)
     chk.exhaustive = True
-    missing = [c for c in CLASSES_REQUIRED + ["style:" + x for x in STYLE_CLASSES] if cover.get(c, 0) == 0]
+    missing = [c for c in CLASSES_REQUIRED + ["style:" + x for x in STYLE_CLASSES] + ["action:" + a for a in MC_ACTIONS]
+               if cover.get(c, 0) == 0]
     if missing:
         raise vlib.ToolError("vacuous: no generated code of class %s" % missing)
     chk.extra["replayed_codes_by_class"] = dict(sorted(cover.items()))
@@ -225,10 +243,15 @@ def run(tier):
     chk.extra["seeded_defect_counterexample"] = {"defs": [show_def(d) for d in cex[0]["d"]], "classes": cex[0]["k"]}
     chk.add_tlc(r)
 
-    for f in fut:
+    for f, cfg in zip(fut, fixed):
         rf = f.result()
-        vlib.require_coverage(rf, MC_ACTIONS)
+        if rf.distinct == 0:
+            raise vlib.ToolError("no states explored with %s" % cfg)
         chk.add_tlc(rf)
+    # (B) action coverage as TLC reports it (a configuration whose invariants do not involve the Producer)
+    rc = tlc("MC_CMap.tla", "MC_CMap_cov.cfg", workers=2, coverage=True, timeout=600)
+    vlib.require_coverage(rc, MC_ACTIONS)
+    chk.add_tlc(rc)
 
     # (V) recorded lopdf runs judged by the declarative layer
     frec.result()
@@ -280,16 +303,18 @@ def validate(chk, tr, recs, name):
         if v["v"] in ("outside-domain", "short-result"):
             raise vlib.ToolError("record %d is %s (driver mistake): %s" % (v["i"], v["v"], defs[:6]))
         sc = v["sc"]
-        styles[sc] = styles.get(sc, 0) + 1
+        for part in sc.split("+"):
+            styles[part] = styles.get(part, 0) + 1
         if sc != "canon":
             # one respect departs from the tolerated spelling / font dictionary: whatever goes wrong is put down to it
             if v["v"] != "ok":
-                chk.violation("C15:" + sc, {"defs": defs[:40], "style": rec["sty"], "font_encoding": rec["font"],
+                chk.violation(style_sig(chk, sc), {"defs": defs[:40], "style": rec["sty"], "font_encoding": rec["font"],
                                             "program": rec["text"][:4000],
                                             "lopdf": rec["err"] or {"encoding": rec.get("encv"), "verdict": v["v"],
                                                                     "whole": got_value(rec["whole"])[:40]}})
             else:
-                styles_ok[sc] = styles_ok.get(sc, 0) + 1
+                for part in sc.split("+"):
+                    styles_ok[part] = styles_ok.get(part, 0) + 1
             chk.traces += 1
             for d in rec["defs"]:
                 lens.add(d["len"])
